@@ -380,8 +380,14 @@ pub fn read_conference_create_response(cc_response: &mut dyn Read) -> RdpResult<
     }
 
     // All section are important
+    let server_net = result.get(&MessageType::ScNet).ok_or(Error::RdpError(RdpError::new(RdpErrorKind::InvalidData, "GCC: missing server network data")))?;
+    let server_core = result.get(&MessageType::ScCore).ok_or(Error::RdpError(RdpError::new(RdpErrorKind::InvalidData, "GCC: missing server core data")))?;
+    let mut channel_ids = Vec::new();
+    for channel_id in cast!(DataType::Trame, server_net["channelIdArray"])?.iter() {
+        channel_ids.push(cast!(DataType::U16, channel_id)?);
+    }
     Ok(ServerData{
-        channel_ids: cast!(DataType::Trame, result[&MessageType::ScNet]["channelIdArray"])?.into_iter().map(|x| cast!(DataType::U16, x).unwrap()).collect(),
-        rdp_version: Version::from(cast!(DataType::U32, result[&MessageType::ScCore]["rdpVersion"])?)
+        channel_ids,
+        rdp_version: Version::from(cast!(DataType::U32, server_core["rdpVersion"])?)
     })
 }
